@@ -463,4 +463,105 @@ example : ((runE exProb exEdits).surfs.objs, (write (runE exProb exEdits)).surfs
     ((runE exProb (exEdits.take 3)).surfs.objs.reverse, (write (runE exProb (exEdits.take 3))).surfs.reverse) := by decide
 example : (runE exProb exEdits).surf = exProb.surf := (C04_history_neutral exProb exProb_wf exEdits exEdits_applicable).2.1.surf
 
+/-! ### histories with writes in between (round 7, seeded C04f) -/
+
+/-- the edits of a history with writes -/
+def editsOf (is : List Item) : List Edit := is.filterMap id
+/-- how many writes a history contains -/
+def writesIn (is : List Item) : Nat := (is.filter Option.isNone).length
+
+theorem editsOf_none (t : List Item) : editsOf (none :: t) = editsOf t := rfl
+theorem editsOf_some (e : Edit) (t : List Item) : editsOf (some e :: t) = e :: editsOf t := rfl
+theorem writesIn_none (t : List Item) : writesIn (none :: t) = writesIn t + 1 := rfl
+theorem writesIn_some (e : Edit) (t : List Item) : writesIn (some e :: t) = writesIn t := rfl
+theorem editsOf_append (a b : List Item) : editsOf (a ++ b) = editsOf a ++ editsOf b := by
+  simp [editsOf]
+
+theorem applicableRun_append_left (p : Prob) (a b : List Edit) (h : ApplicableRun p (a ++ b)) : ApplicableRun p a := by
+  induction a generalizing p with
+  | nil => trivial
+  | cons e t ih => exact ⟨h.1, ih _ h.2⟩
+
+theorem runW_aux (p : Prob) (fs : List WFile) (is : List Item) :
+    (is.foldl stepW (p, fs)).1 = runE p (editsOf is) ∧
+    ∃ gs, (is.foldl stepW (p, fs)).2 = fs ++ gs ∧ gs.length = writesIn is ∧
+      ∀ pre post, is = pre ++ none :: post → gs[writesIn pre]? = some (write (runE p (editsOf pre))) := by
+  induction is generalizing p fs with
+  | nil =>
+    refine ⟨rfl, [], by simp, rfl, ?_⟩
+    intro pre post h
+    cases pre <;> simp at h
+  | cons i t ih =>
+    cases i with
+    | none =>
+      obtain ⟨h1, gs, h2, h3, h4⟩ := ih p (fs ++ [write p])
+      refine ⟨by rw [List.foldl_cons, editsOf_none]; exact h1, write p :: gs, ?_, ?_, ?_⟩
+      · rw [List.foldl_cons]; show (List.foldl stepW (p, fs ++ [write p]) t).2 = _
+        rw [h2]; simp
+      · rw [writesIn_none, List.length_cons, h3]
+      · intro pre post h
+        cases pre with
+        | nil => rfl
+        | cons a pre' =>
+          rw [List.cons_append] at h
+          injection h with ha ht
+          subst ha
+          rw [writesIn_none, editsOf_none, List.getElem?_cons_succ]
+          exact h4 pre' post ht
+    | some e =>
+      obtain ⟨h1, gs, h2, h3, h4⟩ := ih (stepE p e).1 fs
+      refine ⟨by rw [List.foldl_cons, editsOf_some]; exact h1, gs, by rw [List.foldl_cons]; exact h2, by rw [writesIn_some]; exact h3, ?_⟩
+      intro pre post h
+      cases pre with
+      | nil => simp at h
+      | cons a pre' =>
+        rw [List.cons_append] at h
+        injection h with ha ht
+        subst ha
+        rw [writesIn_some, editsOf_some]
+        exact h4 pre' post ht
+
+/-- **C04_history_writes** — for every well-formed problem and EVERY finite history of edits (number assignments
+    accepted or rejected, `add_cell_children_to_problem`, added leaves) with ANY number of `write_to_file` calls at any
+    places in it (induction over the history): the final problem is the one the history reaches with the writes left
+    out; as many files are written as there are writes; and the file of EVERY write is the write of the state the
+    edits before it reach — nothing an earlier write did enters it — so that in every such file, at every reference
+    site, the number written resolves by MCNP's look-up to exactly one card: the card of the object the pointer holds,
+    which is the object it held before the history (`LinksKept`).  In particular an object that leaves its number,
+    is written, and returns (its old number handed on to another object or not) is referred to by its number of
+    the moment in every file. -/
+theorem C04_history_writes (p : Prob) (h : WF p) (is : List Item) (ha : ApplicableRun p (editsOf is)) :
+    (runW p is).1 = runE p (editsOf is) ∧ (runW p is).2.length = writesIn is ∧
+    ∀ pre post, is = pre ++ none :: post →
+      ∃ f, (runW p is).2[writesIn pre]? = some f ∧ f = write (runE p (editsOf pre)) ∧
+        WF (runE p (editsOf pre)) ∧ LinksKept p (runE p (editsOf pre)) (fun c => addedLeaves c (editsOf pre)) ∧
+        ∀ s ck o, (runE p (editsOf pre)).ptr s = some (ck, o) →
+          ∃ n, f.at s = some (ck, n) ∧ resolve f ck n = some (cardIdx (runE p (editsOf pre)) ck o) ∧
+            ((runE p (editsOf pre)).coll (kindOf ck)).objs[cardIdx (runE p (editsOf pre)) ck o]? = some o := by
+  obtain ⟨h1, gs, h2, h3, h4⟩ := runW_aux p [] is
+  refine ⟨h1, ?_, ?_⟩
+  · show (is.foldl stepW (p, [])).2.length = _
+    rw [h2, List.nil_append, h3]
+  · intro pre post hs
+    have hpre : ApplicableRun p (editsOf pre) := by
+      rw [hs, editsOf_append] at ha
+      exact applicableRun_append_left p _ _ ha
+    obtain ⟨hw, hk, hr⟩ := C04_history_neutral p h (editsOf pre) hpre
+    refine ⟨write (runE p (editsOf pre)), ?_, rfl, hw, hk, hr⟩
+    show (is.foldl stepW (p, [])).2[writesIn pre]? = _
+    rw [h2, List.nil_append]
+    exact h4 pre post hs
+
+/-! non-vacuity: the periodic pair of `exProb`: surface 0 leaves its number, WRITE, returns and surface 1 takes the
+    number just left, WRITE, relink: two files, the first with the intermediate number at the partner's pointer -/
+def exItems : List Item :=
+  [some (.num ⟨.surf, 0, 99⟩), none, some (.num ⟨.surf, 0, 1⟩), some (.num ⟨.surf, 1, 99⟩), none, some .relink]
+
+theorem exItems_applicable : ApplicableRun exProb (editsOf exItems) :=
+  ⟨trivial, trivial, trivial, trivial, trivial⟩
+example : (runW exProb exItems).2.length = 2 := (C04_history_writes exProb exProb_wf exItems exItems_applicable).2.1
+example : ((runW exProb exItems).2.map (fun f => f.surfs.map (fun s => (s.number, s.per)))) =
+    [(write (runE exProb [.num ⟨.surf, 0, 99⟩])).surfs.map (fun s => (s.number, s.per)),
+     (write (runE exProb [.num ⟨.surf, 0, 99⟩, .num ⟨.surf, 0, 1⟩, .num ⟨.surf, 1, 99⟩])).surfs.map (fun s => (s.number, s.per))] := by decide
+
 end MontePyVerif.Renumber
